@@ -25,6 +25,7 @@ def main (args : List String) : IO UInt32 := do
   | ["chn"] => Util.loop stdin Chn.doLine; return 0
   | ["lm"] => Util.loop stdin Lmk.doLine; return 0
   | ["lw"] => Util.loop stdin Dp.doLineLw; return 0
+  | ["pos"] => Util.loop stdin Dp.doLinePos; return 0
   | ["ft"] => Util.loop stdin Ftm.doLine; return 0
   | ["pipe"] => Util.loop stdin Net.doLine; return 0
   | ["mrg"] => Util.loop stdin Mrg.doLine; return 0
